@@ -149,11 +149,64 @@ def _mean_of_compare(du, e, at):
     return None, None, v, None
 
 
+def _flags_term(fi):
+    """term of the first returned value of saturation (E14), or Undecided"""
+    from sa.arrterm import TermExec
+    body = [s_ for s_ in fi.node.body if not (isinstance(s_, ast.Expr) and isinstance(s_.value, ast.Constant))]
+    if any(isinstance(s_, (ast.For, ast.While, ast.If, ast.With, ast.Try)) for s_ in body):
+        raise Undecided("saturation is not straight-line code")
+    tx = TermExec(fi.params)
+    ret = tx.run(body)
+    if not ret or len(ret) != 2:
+        raise Undecided("saturation does not return a pair")
+    return ret[0], ret[1]
+
+
+def _model_comparators(ctx, repo, fi):
+    """D1 on value terms: flags == (mean_ch(|data| > 0.98 * max_voltage) > proportion) | ([mean_ch(|diff(data)| / fs >(=) v_per_sec), 0] > proportion)"""
+    from sa.arrterm import show, simplify
+    flags, _ = _flags_term(fi)
+    D, MV, P, FS, V = ("p", "data"), ("p", "max_voltage"), ("p", "proportion"), ("p", "fs"), ("p", "v_per_sec")
+    rng = ("cmp", "Gt", ("mean0", ("cmp", "Gt", ("abs", D), simplify(("mul", MV, ("c", 0.98))))), P)
+
+    def slew(op):
+        return ("cmp", "Gt", ("pad0", ("mean0", ("cmp", op, ("div", ("abs", ("diff", D)), FS), V))), P)
+    wants = [simplify(("or", rng, slew(op))) for op in ("GtE", "Gt")]
+    if flags in wants:
+        ctx.ok(fi, fi.node, show(flags)[:200], "flags = (fraction of channels beyond 98 % of full scale > proportion) | (fraction of channels slewing faster than v_per_sec > proportion, "
+               "padded at the end)", key="model-flags")
+        return True
+    # diagnose
+    txt = show(flags)
+    reason = f"the flags evaluate to {txt[:260]}; expected {show(wants[0])[:260]}"
+
+    def has(t, pat):
+        if t == pat:
+            return True
+        return isinstance(t, tuple) and any(has(x, pat) for x in t if isinstance(x, tuple))
+    if has(flags, ("diff", ("abs", D))):
+        reason = ("the slew test differentiates |data|, not data: the step between two samples is measured as | |v[t+1]| - |v[t]| |, so a swing through zero "
+                  "(-400 uV to +400 uV) reads as no change and the sample is not flagged although the channels exceed the slew limit")
+    elif flags[0] == "and":
+        reason = "the two tests are AND-ed: range-only or slew-only saturation is no longer flagged"
+    ctx.violation(fi, fi.node, txt[:160], reason, key="model-flags", name_free=True)
+    return True
+
+
 def d1_comparators(ctx):
     ctx.rule("D1", "range test |data| > 0.98*max_voltage, slew test |diff|/fs vs v_per_sec padded at the end, both `> proportion`, OR-combined")
     repo = ctx.repo
     fi = repo.fn(FN)
     du = DefUse(fi.node)
+    ors_ = [c for c in find(fi.node, ast.Call, nested=False) if call_name(c) in ("logical_or", "logical_and", "bitwise_or", "bitwise_and")]
+    binops_ = [b for b in find(fi.node, ast.BinOp, nested=False) if isinstance(b.op, (ast.BitOr, ast.BitAnd)) and find(b, ast.Compare)]
+    if not ors_ and not binops_:
+        # no explicit pairwise combination: decide on the value terms of the whole (straight-line) function
+        try:
+            _model_comparators(ctx, repo, fi)
+            return
+        except Undecided as e:
+            raise AnalysisError(f"saturation: the two proportion tests are not combined pairwise and the value model is undecided ({e})")
     ors = [c for c in find(fi.node, ast.Call, nested=False) if call_name(c) in ("logical_or", "logical_and", "bitwise_or", "bitwise_and")]
     binops = [b for b in find(fi.node, ast.BinOp, nested=False) if isinstance(b.op, (ast.BitOr, ast.BitAnd)) and find(b, ast.Compare)]
     comb = None
@@ -247,6 +300,19 @@ def d1_comparators(ctx):
             ctx.check(okabs and okr and isinstance(cmp_.ops[0], ast.Gt), fi, cmp_, cmp_, "range test is |data| > 0.98 * full scale (strict)",
                       f"range test `{src(cmp_)}` is not |data| > max_voltage * 0.98", key="range")
     ctx.check(set(kinds) == {"range", "slew"}, fi, comb[2], f"tests {sorted(kinds)}", "both the range and the slew test take part", f"only {sorted(kinds)} take part", key="both")
+    # cross-check on the value terms (E14) when the function is straight-line code: the slew test must differentiate the data itself
+    try:
+        from sa.arrterm import show
+        ft, _ = _flags_term(fi)
+
+        def has(t, pat):
+            return t == pat or (isinstance(t, tuple) and any(has(x, pat) for x in t if isinstance(x, tuple)))
+        if has(ft, ("diff", ("abs", ("p", "data")))):
+            ctx.violation(fi, comb[2], show(ft)[:160], "the slew test differentiates |data|, not data: a swing through zero reads as no change", key="model-flags", name_free=True)
+        elif has(ft, ("abs", ("diff", ("p", "data")))):
+            ctx.ok(fi, comb[2], "value terms", "on the value terms the slew test is |diff(data)| (the data itself is differentiated)", key="model-flags")
+    except Undecided:
+        pass
     # max_voltage broadcast per channel
     from sa.common import aliases_param
     okb = False
@@ -347,8 +413,15 @@ def d2_d3_mute(ctx):
                 okc = fa == final_flags and bool(fa) and okw and const_value(mode) == (True, "same")
             ctx.check(okc, fi, d_stmt, form, "x is the final flags convolved (same length) with the non-negative taper window",
                       f"`{src(form)}` is not convolve(<final flags>, cosine(mute_window_samples), mode='same')", key="conv")
-    ctx.check(all(isinstance(du.defs[i].value, ast.Call) and call_name(du.defs[i].value) in ("logical_or", "logical_and") or isinstance(du.defs[i].value, ast.BinOp)
-                  for i in final_flags) and bool(final_flags), fi, rets[-1], rets[-1], "first returned value is the boolean flag vector",
+    okflags = all(isinstance(du.defs[i].value, ast.Call) and call_name(du.defs[i].value) in ("logical_or", "logical_and") or isinstance(du.defs[i].value, ast.BinOp)
+                  for i in final_flags) and bool(final_flags)
+    if not okflags:
+        try:
+            ft, _ = _flags_term(fi)
+            okflags = ft[0] in ("or", "and", "cmp")      # a boolean combination on the value model (e.g. np.any over the stacked tests)
+        except Undecided:
+            pass
+    ctx.check(okflags, fi, rets[-1], rets[-1], "first returned value is the boolean flag vector",
               "first returned value is not the combined boolean flags", key="ret-flags")
 
 
